@@ -8,6 +8,7 @@ import (
 	"github.com/bluenviron/gomavlib/v3"
 
 	"verif/dsim"
+	"verif/hd"
 	"verif/ref"
 )
 
@@ -200,6 +201,37 @@ func c16Body() func(h []dsim.Rec) {
 			dsim.Failf("harness", "peer listen: %v", err)
 			return nil
 		}
+	}
+	if cfg.hbExpected() && cfg.dialectKind == 0 && int(duration/time.Second)%3 == 0 {
+		// an earlier node of the same process, built on the same Dialect value with another
+		// heartbeat configuration (an application that restarts its node, or runs two): what the
+		// node under test announces is its own configuration. No draw is spent on the decision, so
+		// the other two thirds of the runs are the ones explored before.
+		cfg.shared = hd.New()
+		pa, pb := e.w.Pipe("earlier")
+		pn := &gomavlib.Node{Dialect: cfg.shared, OutVersion: gomavlib.V2, OutSystemID: 201, HeartbeatPeriod: 100 * time.Millisecond,
+			HeartbeatSystemType: cfg.hbSysType + 5, HeartbeatAutopilotType: cfg.hbAutopilot + 1,
+			Endpoints: []gomavlib.EndpointConf{gomavlib.EndpointCustom{ReadWriteCloser: pa}}}
+		if err := pn.Initialize(); err != nil {
+			dsim.Failf("harness", "earlier node did not initialise: %v", err)
+			return nil
+		}
+		dsim.Go("earlier-consumer", func() {
+			for range pn.Events() { //nolint
+			}
+		})
+		dsim.Go("earlier-peer", func() {
+			buf := make([]byte, 512)
+			for {
+				if _, err := pb.Read(buf); err != nil {
+					return
+				}
+			}
+		})
+		dsim.Sleep(350 * time.Millisecond)
+		pn.Close()
+		pb.Close()
+		count("cov:earlier-node-same-dialect")
 	}
 	if err := e.startNode(); err != nil {
 		dsim.Failf("harness", "node did not initialise: %v", err)
